@@ -58,9 +58,11 @@ func (x *Exec) judge() (viols []Viol, st Stats) {
 	st.Sig = x.perturb.sig.Load()
 	st.Dispatches = int(x.perturb.dispatches.Load())
 	st.WorkersStarted = int(x.perturb.workersStart.Load())
+	x.perturb.stMu.Lock()
 	for s := range x.perturb.states {
 		st.AbsStates = append(st.AbsStates, s)
 	}
+	x.perturb.stMu.Unlock()
 	for p := range x.perturb.hits {
 		st.PerturbHits += int(x.perturb.hits[p].Load())
 	}
@@ -330,8 +332,11 @@ func (x *Exec) judge() (viols []Viol, st Stats) {
 	}
 
 	// ---- C19: state reports ------------------------------------------------
-	st.States = len(x.states)
-	for k, r := range x.states {
+	x.stMu.Lock()
+	states := append([]stateRec(nil), x.states...)
+	x.stMu.Unlock()
+	st.States = len(states)
+	for k, r := range states {
 		s := r.st
 		exec := s.Pending - s.Ready - s.Waiting
 		bad := ""
